@@ -54,8 +54,8 @@ impl FetchBlocksGuard {
 //@extract file=canister/src/guard.rs in="impl FetchBlocksGuard" item="fn new" props=C13
 //@ ret r
 //@ sigrewrite R7 "fn new\(\)" => "fn new(vp_st: &mut State)"
-//@ rewrite R7 "with_state_mut\(\|s\| \{" => "{ let s: &mut State = &mut *vp_st; {"
-//@ rewrite R7 "\}\)\s*\}$" => "} } }"
+//@ r7 rw="&mut *vp_st" ro="&*vp_st" type=State
+//@ r14 fn=vp_drop_guard args=vp_st track="FetchBlocksGuard(::new)?\("
 //@ spec
 //@| ensures
 //@|     // at most one request outstanding: a guard is handed out iff none is alive, and taking it raises the flag
@@ -103,7 +103,7 @@ fn vp_request_stats(vp_st: &mut State, request: &GetSuccessorsRequest)
 //@ rewrite R7 "maybe_get_successors_request\(\)" => "vp_maybe_get_successors_request(vp_st)"
 //@ rewrite R3 "with_state_mut\(\|s\| \{\s*let stats = &mut s\.syncing_state\.get_successors_request_stats;.*?\n    \}\);" => "vp_request_stats(vp_st, &request);"
 //@ r7 ro="&*vp_st" rw="&mut *vp_st" type=State
-//@ r14 fn=vp_drop_guard args=vp_st
+//@ r14 fn=vp_drop_guard args=vp_st track="FetchBlocksGuard(::new)?\("
 //@ head
 //@| // R8 slice: maybe_fetch_blocks up to (not including) the inter-canister call; `true` = the call is made next
 //@| fn maybe_fetch_blocks_until_call(vp_st: &mut State) -> (sent: bool)
